@@ -867,6 +867,16 @@ def py_raw_decode(text):
     return (v, text[end:])
 
 
+def py_raw_decode_list(text):
+    try:
+        v, end = json.JSONDecoder().raw_decode(text)
+    except (json.JSONDecodeError, RecursionError):
+        return None
+    if not isinstance(v, list) or not all(isinstance(o, dict) and all(isinstance(x, str) for x in o.values()) for o in v):
+        return None
+    return (v, text[end:])
+
+
 def decode_extract(m):
     return safe_call(lambda: (unS(m[0]), [dep_canon(dep_from_payload(unS(p))) for p in m[1]]))
 
@@ -1128,6 +1138,17 @@ def run(ctx: Ctx) -> None:
     otexts += [t[:rng.randrange(0, len(t) + 1)] for t in otexts[:ctx.budget(300, 3000)]]       # truncated: errors
     otexts += ['{}', '{', '{"a"}', '{"a": }', '{"a": "b",}', '{"a": "b", }', '{"a": "b"', '{"a":"b"}', '']
     batch.add("objdec", [[12, S(t)] for t in otexts])
+    # ---- B2 (lists): lists of flat objects (script / stylesheet / meta as as_dict() hands them to json.dumps)
+    olists = [[rng.choice(objs) for _ in range(rng.choice([0, 1, 1, 2, 3, 6]))] for _ in range(ctx.budget(600, 10000))] if objs else []
+    batch.add("olenc", [[13, [[[S(k), S(v)] for k, v in o] for o in ol]] for ol in olists])
+    oltexts = []
+    for k, ol in enumerate(olists):
+        d = json.dumps([dict(o) for o in ol])
+        d = d.replace("</", "<\\/") if k % 3 else d
+        oltexts.append(d + rng.choice(tails))
+    oltexts += [t[:rng.randrange(0, len(t) + 1)] for t in oltexts[:ctx.budget(200, 2000)]]
+    oltexts += ['[]', '[', '[{}', '[{},]', '[{}, ]', '[{},{}]', '[{}, {}]', '[[]]', ""]
+    batch.add("oldec", [[14, S(t)] for t in oltexts])
 
     # ---- the Coq specification functions used as oracles ---------------------------------------
     probes = [hostile(rng, 4) for _ in range(ctx.budget(500, 10000))] + \
@@ -1389,6 +1410,24 @@ def run(ctx: Ctx) -> None:
                    not obad and n_some >= len(objs))
     if obad:
         ctx.extra["disagree_objdec"] = obad[:3]
+    diff(ctx, "json.dumps(list of flat dicts) vs enc_obj_list", olists, batch.get("olenc"),
+         impl=lambda ol: json.dumps([dict(o) for o in ol]), decode=unS,
+         nontrivial=lambda ol: len(ol) > 1, kind=lambda ol: "list of flat dicts for json.dumps")
+    olbad = []
+    n_some = 0
+    for t, m in zip(oltexts, batch.get("oldec")):
+        ctx.count(("oldec", t), "\\" in t, "list-of-objects text for raw_decode")
+        pv = py_raw_decode_list(t)
+        mv = None if (isinstance(m, tuple) or m == []) else (
+            [[(unS(kv[0]), unS(kv[1])) for kv in o] for o in m[0][0]], unS(m[0][1]))
+        n_some += mv is not None
+        if isinstance(m, tuple) or (mv is not None and (pv is None or ([dict(o) for o in mv[0]], mv[1]) != pv)):
+            olbad.append({"case": t, "impl_output": repr(pv), "model_output": repr(mv)})
+    ctx.corr_cases += len(oltexts)
+    ctx.obligation(f"correspondence json.JSONDecoder().raw_decode vs dec_obj_list ({len(oltexts)} texts, {n_some} accepted by the model)",
+                   not olbad and n_some >= len(olists))
+    if olbad:
+        ctx.extra["disagree_oldec"] = olbad[:3]
     ctx.obligation(f"Coq has_close_tag == the oracle's '</script' test ({len(probes)} strings)",
                    all(bool(a) == spec_has_close_tag(s) for a, s in zip(batch.get("hct"), probes)))
     ctx.obligation("Coq stable_unique == the oracle's first-occurrences (300 lists)",
